@@ -1889,11 +1889,19 @@ def go_parse_check(ctx):
             else:
                 v = rng.choice([0, 1, 49, 50, 51, 100, 1000, 30000, 10**7, 10**9, -1, -50])
             toks += [kw, str(v)]
+            # tokens the engine does not know (other UCI keywords and their values, an empty token from a double
+            # blank) may stand anywhere between the keyword/value pairs: they are skipped one by one
+            if rng.random() < 0.25:
+                toks += rng.choice([["ponder"], ["searchmoves", "e1e2"], ["searchmoves", "e1e2", "e1d1"], ["nodes", "1000"], [""], ["mate", "3", "ponder"]])
+        if toks and rng.random() < 0.2:
+            toks = rng.choice([["ponder"], ["searchmoves", "e1e2", "e1d1"], [""]]) + toks
         cases.append((f"4k3/8/8/8/8/8/8/4K3 {side} - - 0 1", "go " + " ".join(toks) if toks else "go", side))
     # a depth limit together with the clock, in every position of the line (fixed cases, both sides)
     for side in "wb":
         for g in ("go depth 30 wtime 400 btime 400", "go wtime 400 depth 30 btime 400", "go wtime 400 btime 400 depth 30", "go depth 5 btime 900 wtime 700 movestogo 10",
-                  "go winc 10 depth 3 binc 10 wtime 1000 btime 2000", "go movestogo 2 depth 40 wtime 5000 btime 3000", "go depth 1 wtime 60000 btime 60000 winc 1000 binc 1000"):
+                  "go winc 10 depth 3 binc 10 wtime 1000 btime 2000", "go movestogo 2 depth 40 wtime 5000 btime 3000", "go depth 1 wtime 60000 btime 60000 winc 1000 binc 1000",
+                  "go searchmoves e1e2 e1d1 wtime 2000 btime 2000 winc 0 binc 0", "go ponder wtime 2000 btime 2000", "go wtime 2000  btime 2000", "go  wtime 2000 btime 2000",
+                  "go searchmoves e1e2 movetime 300", "go ponder depth 2 wtime 900 btime 900"):
             cases.insert(0, (f"4k3/8/8/8/8/8/8/4K3 {side} - - 0 1", g, side))
     chunks = [cases[i::8] for i in range(8)]
     res = parallel_map(lambda ch: observe_deadline([(f, g) for f, g, _ in ch]), chunks, workers=8)
@@ -1909,10 +1917,13 @@ def go_parse_check(ctx):
         got = "ok " + val if st == "ok" else "panic"
         # property-level rule, independent of the model and of the order of the tokens: when the line gives the
         # mover's own clock (and neither movetime nor infinite), the allotment is within [1, max(1, own clock - 50)]
-        tk = goline.split()[1:]
-        if st == "ok" and "movetime" not in tk and "infinite" not in tk and len(tk) % 2 == 0:
-            d = {tk[i]: tk[i + 1] for i in range(0, len(tk), 2)}
-            own = d.get("wtime" if side == "w" else "btime")
+        tk = goline.split(" ")[1:]
+        if st == "ok" and "movetime" not in tk and "infinite" not in tk:
+            # the value that follows the first occurrence of the mover's clock keyword, wherever it stands
+            ownkw = "wtime" if side == "w" else "btime"
+            own = None
+            if ownkw in tk and tk.index(ownkw) + 1 < len(tk) and re.fullmatch(r"-?\d+", tk[tk.index(ownkw) + 1]) and tk.count(ownkw) == 1:
+                own = tk[tk.index(ownkw) + 1]
             mm = re.search(r"millis=(-?\d+)", val)
             if own is not None and mm and int(own) >= 0:
                 a, left = int(mm.group(1)), int(own)
@@ -3862,6 +3873,7 @@ def run(ctx):
             log("translated code vs model: " + l)
         if tie_note:
             ctx.notes.append(tie_note)
+            log(tie_note[:400])
     if not aud["ok"] and not ctx.violations:
         # proof obligation no longer checks: property-specific hunt, then report
         hunt = spec.get("hunt")
